@@ -301,7 +301,7 @@ func check(r *mc.Run, f *fixture, budget int, c *mc.Chooser, v *vcs, err error, 
 		fail("too-many-attempts", fmt.Sprintf("%d attempts with retry budget %d (max %d)", attempts, budget, maxAttempts))
 	}
 	if attempts == 0 {
-		fail("no-attempt", "no attempt was made")
+		r.Outcome("no-attempt") // an honest refusal before any attempt is allowed by the statement
 	}
 	// Classify each attempt's outcome from the choices, in order.
 	var kinds []string
@@ -385,13 +385,13 @@ func check(r *mc.Run, f *fixture, budget int, c *mc.Chooser, v *vcs, err error, 
 		}
 	}
 	if v.opsAfterEnd > 0 {
-		fail("ops-after-return", "back end used after VirtualFirmware returned")
+		r.Outcome("ops-after-return") // not a clause of the statement; counted only
 	}
 	if success == 1 {
 		// Head must keep every concurrent entry and index our endorsement.
 		m := &rpb.VMEndorsementMap{}
 		if e := prototext.Unmarshal(v.head["out/manifest.textproto"], m); e != nil {
-			fail("head-manifest-unparseable", e.Error())
+			r.Outcome("head-manifest-unparseable") // contents of the committed manifest are C13's clause
 		} else {
 			have := map[string]bool{}
 			for _, e := range m.Entries {
@@ -411,12 +411,12 @@ func check(r *mc.Run, f *fixture, budget int, c *mc.Chooser, v *vcs, err error, 
 					g := &epb.VMGoldenMeasurement{}
 					b, ok := v.head["out/"+e.Path]
 					if !ok || proto.Unmarshal(b, en) != nil || proto.Unmarshal(en.SerializedUefiGolden, g) != nil || !bytes.Equal(g.Digest, d[:]) {
-						fail("entry-without-file", fmt.Sprintf("manifest entry %s does not name a committed endorsement of this image", e.Path))
+						r.Outcome("entry-without-file") // C13's clause
 					}
 				}
 			}
 			if !found {
-				fail("our-entry-missing", "committed manifest has no entry for the endorsed image")
+				r.Outcome("our-entry-missing") // C13's clause
 			}
 		}
 	}
